@@ -5,7 +5,12 @@
            of the digits) for integers and ratios; for floats the run-time parse of the same text
            (value and precision), which is what the property names as the reference
    asis  = *_tokens_asis (the token loops), gen_*_asis (the three generators) and eval_* (the
-           constructors the emitted code calls)                                                  *)
+           constructors the emitted code calls)
+   round 3, model fidelity (asis=same|diff on every case):
+     lexer    - Macro/LitLexModel.v lex on the source text of the case vs the token trees the front end received
+     pipeline - Macro/LitRefModel.v macro_{int,fbin,fdec,rat}_asis (token loop -> C07 / C08 / C04 as-is parser models ->
+                generator -> constructor) vs the value the implementation built (or its refusal)
+     run-time - int_runtime / rat_runtime (the run-time parser models on the text sign + value) vs the harness' `rt` *)
 open Common
 open Model
 
@@ -53,7 +58,91 @@ type exp = Reject | Accept of string * string * string * string   (* answer up t
 let starts_with p s = String.length s >= String.length p && String.sub s 0 (String.length p) = p
 let drop_plus s = String.concat "" (String.split_on_char '+' s)
 
-let judge op args got =
+(* the source text as the harness assembles it from the pieces of the case *)
+let source_of pieces =
+  let b = Buffer.create 64 in
+  List.iter (fun t ->
+    let k = t.[0] in
+    let text = text_of_bytes (unhex (String.sub t 1 (String.length t - 1))) in
+    if Char.uppercase_ascii k = k && Buffer.length b > 0 then Buffer.add_char b ' ';
+    Buffer.add_string b text) pieces;
+  Buffer.contents b
+
+let tok_eq a b = a.tk = b.tk && List.length a.ttext = List.length b.ttext && List.for_all2 Zar.equal a.ttext b.ttext
+
+(* lexer model vs the tokens of the front end: Some true / Some false / None (text outside the modelled alphabet) *)
+let lexer_fidelity pieces (got_toks : token list option) =
+  match lex (bytes_of_text (source_of pieces)), got_toks with
+  | LexUnmodelled, _ -> None
+  | LexOk ts, Some g -> Some (List.length ts = List.length g && List.for_all2 tok_eq ts g)
+  | LexErr, None -> Some true
+  | _, _ -> Some false
+
+let w64z = Zar.of_int 64
+let after key l = let rec go = function [] -> [] | x :: r -> if x = key then r else go r in go l
+let between a b l = let rec upto = function [] -> [] | x :: r -> if x = b then [] else x :: upto r in upto (after a l)
+
+(* the end-to-end as-is models against the implementation's value / refusal / run-time answer *)
+let pipeline_fidelity op flags case_radix toks tail =
+  let radix_of b = (match b with None -> 0 | Some bt -> (try int_of_string (text_of_bytes bt) with _ -> -1)) in
+  let static_ = String.contains flags 's' in
+  let is_reject = (match tail with "reject" :: _ -> true | _ -> false) in
+  let value = between "val" "rt" tail in
+  let rt = after "rt" tail in
+  match op with
+  | "int" ->
+    let signed_ = String.contains flags 'i' in
+    let m = macro_int_asis w64z w64z signed_ static_ toks in
+    let main = (match m with None -> is_reject | Some zv -> (not is_reject) && value = [ hx zv ]) in
+    (* the run-time parser model on sign + value, when the harness parsed the same text *)
+    let rtok = (match int_tokens_asis signed_ toks, rt with
+      | Some ((neg, v), b), [ r ] when r <> "na" && value_text_ok v && radix_of b = case_radix && case_radix <> 0 || (b = None && r <> "na" && value_text_ok v && case_radix = 0) ->
+        (match int_runtime w64z signed_ neg v b with Some zv -> r = hx zv | None -> r = "err")
+      | _ -> true) in
+    main && rtok
+  | "fbin" | "fdec" ->
+    let m = if op = "fbin" then macro_fbin_asis w64z static_ toks else macro_fdec_asis w64z static_ toks in
+    (match m with
+     | None -> is_reject
+     | Some ((a, e), p) -> (not is_reject) && value = [ hx a; hx e; hx p ])
+  | "rat" ->
+    let m = macro_rat_asis w64z w64z static_ toks in
+    let main = (match m with
+      | None -> is_reject
+      | Some (_, (a, c)) -> (not is_reject) && value = [ hx a; hx c ]) in
+    let rtok = (match rat_tokens_asis toks, rt with
+      | Some o, (_ :: _ as r) when r <> [ "na" ] && rat_texts_ok o ->
+        let ((((rel, _), _), _), b) = o in
+        if rel <> String.contains flags 'x' || radix_of b <> case_radix || (b <> None && case_radix = 0) then true
+        else (match rat_runtime w64z o with Some (a, c) -> r = [ hx a; hx c ] | None -> r = [ "err" ])
+      | _ -> true) in
+    main && rtok
+  | _ -> true
+
+let with_asis (v : verdict) fid = { v with extra = v.extra ^ (if fid then " asis=same" else " asis=diff") }
+
+let rec judge op args got =
+  let v = judge0 op args got in
+  match args with
+  | flags :: radix :: _ :: pieces ->
+    let case_radix = (try int_of_string ("0x" ^ radix) with _ -> -1) in
+    (match got with
+     | [ "lexerr" ] ->
+       (match lexer_fidelity pieces None with None -> v | Some f -> with_asis v f)
+     | "toks" :: n :: rest ->
+       (try
+          let n = int_of_string ("0x" ^ n) in
+          let tks, tail = take n rest in
+          let toks = List.map tok_of tks in
+          let lf = (match lexer_fidelity pieces (Some toks) with None -> true | Some f -> f) in
+          let pf = pipeline_fidelity op flags case_radix toks tail in
+          let v = with_asis v (lf && pf) in
+          { v with extra = v.extra ^ (if lf then "" else " lexer=diff") ^ (if pf then "" else " pipeline=diff") }
+        with _ -> with_asis v false)
+     | _ -> v)
+  | _ -> v
+
+and judge0 op args got =
   match args with
   | flags :: radix :: rttext :: _pieces ->
     begin match got with
